@@ -39,7 +39,7 @@ class FusedMatMulDiv1(orp.RewriteRuleClassBase):
 
     def rewrite(self, op, x, y, cst):
         value = cst.const_value.numpy()
-        c = float(value[0] if value.shape == (1,) else value)
+        c = float(value.item())  # check() guarantees a single element, of any rank
         return op.FusedMatMul(x, y, alpha=1 / c, _domain="com.microsoft")
 
 
@@ -59,7 +59,7 @@ class FusedMatMulDiv2(orp.RewriteRuleClassBase):
 
     def rewrite(self, op, x, y, cst, fused: ir.Value):
         value = cst.const_value.numpy()
-        c = float(value[0] if value.shape == (1,) else value)
+        c = float(value.item())  # check() guarantees a single element, of any rank
         fused_node = _get_node(fused, "FusedMatMul")
         kwargs = _get_kwargs(fused_node)
         kwargs["alpha"] = kwargs.get("alpha", 1.0) / c
